@@ -602,6 +602,11 @@ func callSSA(i *interpreter, caller *frame, callpos token.Pos, fn *ssa.Function,
 			}
 		}
 	}
+	if theExplorer.summary == nil && len(theExplorer.Summaries) > 0 && theExplorer.cur != nil && theExplorer.Summaries[fn.String()] && deepSym(args) {
+		if r, ok := summarize(i, caller, callpos, fn, args, env); ok {
+			return r
+		}
+	}
 	if fn.Parent() == nil {
 		name := fn.String()
 		if si := symIntrinsics[name]; si != nil && anySym(args) {
